@@ -6,6 +6,7 @@ import (
 	"go/types"
 	"sort"
 	"strings"
+	"sync"
 
 	"golang.org/x/tools/go/ssa"
 )
@@ -85,15 +86,21 @@ type Eff struct {
 	// of a pointer parameter (local object of the caller), with the roots of the
 	// stored value when it is a reference
 	fieldWrites map[*ssa.Function][]fieldWrite
-	Unknown map[*ssa.Function][]string // calls whose effects are not modelled
+	Unknown     map[*ssa.Function][]string // calls whose effects are not modelled
 }
 
-var effCache = map[*Program]*Eff{}
+var (
+	effCache = map[*Program]*Eff{}
+	effMu    sync.Mutex
+)
 
 // GetEff computes (once) the effect summaries of the program.
 func GetEff(p *Program) *Eff {
-	if e, ok := effCache[p]; ok {
-		return e
+	effMu.Lock()
+	e0, ok := effCache[p]
+	effMu.Unlock()
+	if ok {
+		return e0
 	}
 	e := &Eff{P: p, Summary: map[*ssa.Function][]Effect{}, Direct: map[*ssa.Function][]Effect{},
 		fresh: map[*ssa.Function]int{}, Unknown: map[*ssa.Function][]string{},
@@ -128,7 +135,9 @@ func GetEff(p *Program) *Eff {
 			break
 		}
 	}
+	effMu.Lock()
 	effCache[p] = e
+	effMu.Unlock()
 	return e
 }
 
@@ -507,7 +516,7 @@ func (e *Eff) fieldRoots(base ssa.Value, field string, at ssa.Instruction, suffi
 	if al, ok := base.(*ssa.Alloc); ok {
 		// a callee that received the address may have stored into the field
 		if w := e.calleeMayWriteField(al, field); w != "" {
-			add(out, Root{Kind: RUnknown, Name: "field written by callee " + w}.with(path + suffix))
+			add(out, Root{Kind: RUnknown, Name: "field written by callee " + w}.with(path+suffix))
 		} else if !contributed {
 			add(out, Root{Kind: RFresh}.with(suffix)) // zero value
 		}
@@ -948,4 +957,18 @@ func (e *Eff) callEffects(fn *ssa.Function, c ssa.CallInstruction, emit func([]R
 			*unknown = append(*unknown, e.P.InstrPos(c)+": effects of "+name+" are not modelled")
 		}
 	}
+}
+
+// ResetCaches drops per-program caches (used between control variants).
+func ResetCaches() {
+	effMu.Lock()
+	effCache = map[*Program]*Eff{}
+	effMu.Unlock()
+}
+
+// Forget drops the caches of one program.
+func Forget(p *Program) {
+	effMu.Lock()
+	delete(effCache, p)
+	effMu.Unlock()
 }
